@@ -34,6 +34,9 @@ def dispatch(prop):
     if prop == "C19":
         import names
         return names.run_c19
+    if prop == "C18":
+        import levels
+        return levels.run_c18
     if prop == "C08":
         import conversions
         return conversions.run_c08
